@@ -2,6 +2,7 @@ import Driver.OpsBind
 import XsdataModel.Fault.Doc
 import XsdataModel.Fault.Dict
 import XsdataModel.Fault.Supported
+import XsdataModel.Fault.Bytes
 open Lean Proto Py Xs.Bind Xs.Fault
 
 namespace OpsFault
@@ -71,6 +72,22 @@ def run (op : String) (a : Json) : Option (Except String Json) :=
       let c ← dStr (field a "clazz")
       pure <| match parseDocument benv Γ (dCfg (field a "config")) c tok with
         | .ok (v, w) => ok (jObj [("value", jVal v), ("warnings", jNat w)])
+        | .error e => jErr e
+  | "conv.bytes" => some do
+      -- BytesConverter.deserialize: {"fmt": "base16"|"base64"|other, "value": str, "codec": {"bytes": [..]} | "binascii" | "value"}
+      let value ← dStr (field a "value")
+      let fmt := match field a "fmt" with
+        | .str "base16" => BytesFormat.base16
+        | .str "base64" => BytesFormat.base64
+        | _ => BytesFormat.other
+      let codec ← match field a "codec" with
+        | .str "binascii" => pure Codec.binasciiError
+        | .str "value" => pure Codec.valueError
+        | j => match j.getObjVal? "bytes" with
+          | .ok bs => (dList dNat bs).map Codec.bytes
+          | _ => pure Codec.binasciiError
+      pure <| match bytesDeserialize benv.py fmt value codec with
+        | .ok bs => ok (jList jNat bs)
         | .error e => jErr e
   | "fault.supported" => some do
       -- is the input inside the supported region of the models (`Fault/Supported.lean`)?
